@@ -20,17 +20,15 @@ Qed.
    (same number, same values) and its share lies on the polynomial THEY commit to *)
 Theorem accept_iff_consistent t bc d i :
   accepts t bc d i = true <->
-  dl_fault d = FNone /\ map zr (dl_commits d) = map zr bc /\ length bc = t /\
+  dl_fault d = FNone /\ map zr (dl_commits d) = map zr bc /\
   zr (dl_share d) = eval_poly bc (i + 1).
 Proof.
   unfold accepts, vss_ok. destruct (dl_fault d); try (split; [discriminate|intros (H & _); discriminate]).
-  rewrite !andb_true_iff, Nat.eqb_eq, Z.eqb_eq, commits_eqb_spec. split.
-  - intros ((Hl & Hs) & Hc). split; [reflexivity|]. split; [auto|]. split.
-    + rewrite <- Hl. rewrite <- (map_length zr bc), Hc, map_length. reflexivity.
-    + rewrite Hs. symmetry. apply eval_poly_zr_ext. exact Hc.
-  - intros (_ & Hc & Hl & Hs). repeat split; auto.
-    + rewrite <- Hl, <- (map_length zr (dl_commits d)), Hc, map_length. reflexivity.
-    + rewrite Hs. symmetry. apply eval_poly_zr_ext. auto.
+  rewrite !andb_true_iff, Z.eqb_eq, commits_eqb_spec. split.
+  - intros (Hs & Hc). split; [reflexivity|]. split; [auto|].
+    rewrite Hs. symmetry. apply eval_poly_zr_ext. exact Hc.
+  - intros (_ & Hc & Hs). split; auto.
+    rewrite Hs. symmetry. apply eval_poly_zr_ext. auto.
 Qed.
 
 (* the honest dealer's deal is accepted *)
@@ -67,7 +65,7 @@ Theorem share_off_polynomial_refused t bc d i :
   zr (dl_share d) <> eval_poly bc (i + 1) -> accepts t bc d i = false.
 Proof.
   intros H. destruct (accepts t bc d i) eqn:E; [|reflexivity].
-  apply accept_iff_consistent in E as (_ & _ & _ & Hs). contradiction.
+  apply accept_iff_consistent in E as (_ & _ & Hs). contradiction.
 Qed.
 
 (* an addressee reports the error as soon as one of its deals is not accepted *)
@@ -81,8 +79,21 @@ Qed.
 Theorem response_ok_all_consistent t deals i :
   responses_result t deals i = ev_resp_ok ->
   forall bc d, In (bc, d) deals ->
-    dl_fault d = FNone /\ map zr (dl_commits d) = map zr bc /\ length bc = t /\ zr (dl_share d) = eval_poly bc (i + 1).
+    dl_fault d = FNone /\ map zr (dl_commits d) = map zr bc /\ zr (dl_share d) = eval_poly bc (i + 1).
 Proof.
   unfold responses_result. destruct (forallb _ deals) eqn:E; [|discriminate]. intros _ bc d Hin.
-  rewrite forallb_forall in E. apply accept_iff_consistent. apply (E _ Hin).
+  rewrite forallb_forall in E. apply (accept_iff_consistent t bc d i). apply (E _ Hin).
+Qed.
+
+(* what the check does NOT look at: the number of coefficients.  A dealer that broadcasts and deals
+   a polynomial with more coefficients than the threshold passes the addressee's check (the
+   master-key step then fails in kyber and cancels the round - run on real machines) *)
+Theorem higher_degree_deal_accepted coeffs extra i t :
+  accepts t (coeffs ++ [extra])
+          {| dl_fault := FNone; dl_commits := coeffs ++ [extra]; dl_share := eval_poly (coeffs ++ [extra]) (i + 1) |} i = true.
+Proof.
+  apply accept_iff_consistent. cbn. repeat split.
+  assert (H : forall c x, zr (eval_poly c x) = eval_poly c x).
+  { intros c x. destruct c; cbn; [reflexivity|]. unfold zadd, zr. apply Z.mod_mod. discriminate. }
+  apply H.
 Qed.
